@@ -1,4 +1,5 @@
 import IsalVerif.Driver.Hash
+import IsalVerif.Driver.Aes
 /-! `isal_model`: reads operation lines on stdin, prints one canonical result line per operation. -/
 open IsalVerif IsalVerif.Driver
 
@@ -17,12 +18,32 @@ partial def hashEpisode (h : IO.FS.Stream) (I : Inst) (s : HSt I) : IO (Option S
     hashEpisode h I s'
   | _ => return some line
 
+/-- AES episode: stateful (key schedule + GCM context) -/
+partial def aesEpisode (h : IO.FS.Stream) (s : ASt) : IO (Option String) := do
+  let line ← h.getLine
+  if line.isEmpty then return none
+  let toks := splitLine line
+  match toks with
+  | "E" :: _ => return some line
+  | [] => aesEpisode h s
+  | _ =>
+    let (s', out) := aesStep s toks
+    IO.println out
+    aesEpisode h s'
+
 partial def mainLoop (h : IO.FS.Stream) (pending : Option String) : IO Unit := do
   let line ← match pending with
     | some l => pure l
     | none => h.getLine
   if line.isEmpty then return ()
   match splitLine line with
+  | ["E", "aes", fam] =>
+    IO.println "E"
+    -- the vaes_avx512 GCM family (and the public API when it dispatches to it: "pub:lazy") defers
+    -- the last GHASH multiply of an exactly-256-byte update
+    let lazy := fam.startsWith "vaes" || fam.endsWith ":lazy"
+    let nxt ← aesEpisode h { lazy256 := lazy }
+    mainLoop h nxt
   | ["E", alg, fam, _nctx] =>
     match inst alg with
     | some I =>
